@@ -154,6 +154,10 @@ pub fn build_actors(plan: &Plan, focus: &Focus, rng: &mut Rng) -> Vec<Box<dyn Ac
             ActorKind::Flood => actors.push(Box::new(Scanner::flood(plan, rng, peer))),
         }
     }
+    if let Some(nconn) = plan.mass_scan {
+        let peer = if !allowed.is_empty() { *rng.pick(&allowed) } else { 0 };
+        actors.push(Box::new(BannerScan::new(plan, rng, peer, nconn)));
+    }
     actors
 }
 
